@@ -34,3 +34,10 @@ check(
     "Trusts the watershed label map itself (C04 verifies it) and the independent trapezoid Hs used for ordering; wave-age boundary bins within 1e-9 skip only the differential comparison.",
     "DESIGN.md section 5 C03",
 )
+check(
+    "C05",
+    "metamorphic: Hypothesis draws (dataset, storage transformation, operation) and compares O(T(x)) with O(x) after sorting by coordinate labels; transformations are materialised in memory (dim permutation incl. dir-before-freq, Fortran order, strided views, dtype width, direction roll incl. seam-first, reversal)",
+    "Thousands (quick) / >100k (thorough) (x,T,O) triples across ~55 catalogue operations and the numpy-level np_ptm functions, with the distribution of transformations and operation families reported. Exploration.",
+    "Trusts xarray's label-based sortby/transpose for the comparison; discrete choices are compared only when the reference conditioning analysis says they are well determined; reversal is not applied to watershed methods, as the statement allows.",
+    "DESIGN.md section 5 C05",
+)
